@@ -23,7 +23,16 @@ func phaseInvs(policy string) []invFn {
 				if r.Op.Kind != "phase" || pr == nil || pr.failed > 0 || pr.kinds["reconfig"] || pr.kinds["sync"] || e.failedPendingBefore {
 					return nil
 				}
-				return checkTAAllLiveHoldGrant(e, r)
+				// (a container that lost its grant in an earlier request of the history - a
+				// failed update, Synchronize or reconfiguration - is not this phase's doing)
+				lost, _ := e.scratch["lostGrant"].(map[string]string)
+				v := e.taView()
+				for _, c := range e.m.live() {
+					if _, ok := v.grants[c.ID]; !ok && (lost[c.ID] == "" || lost[c.ID] == "concurrent-phase") {
+						return checkTAAllLiveHoldGrant(e, r)
+					}
+				}
+				return nil
 			}}
 	} else {
 		libs = []invFn{checkBalloons, checkBalloonsMemory, checkBalloonsNoStaleHolders, checkRuntimeView}
